@@ -44,9 +44,12 @@ NodeClauses(s, r, nd, reach, isFirst) ==
                            THEN {"CERT.bad"} ELSE PDDClauses(s, r, nd))
                         ELSE {})
              \cup (IF Want(s, "C08") THEN LeakClauses(s, r, nd) ELSE {})
+             \* C08: the leak flow is part of the node's mass balance (in every demand model)
+             \cup (IF Want(s, "C08") /\ ~IsZero(N(r.leak[n])) THEN NBad("C08.leak_in_balance", JunctionBalance(s, r, n)) ELSE {})
     [] nd.type = "T" ->
         (IF Want(s, "C01") THEN NBad("C01.tank_demand", SourceDemand(s, r, n)) ELSE {})
         \cup (IF Want(s, "C08") THEN LeakClauses(s, r, nd) ELSE {})
+        \cup (IF Want(s, "C08") /\ ~IsZero(N(r.leak[n])) THEN NBad("C08.leak_in_balance", SourceDemand(s, r, n)) ELSE {})
         \cup (IF Want(s, "C06") THEN
                 (IF isFirst THEN NBad("C06.tank_limits", TankLimits(Zero, r, nd)) ELSE {})
                 \cup NBad("C06.no_drain_at_min", NoDrainAtMin(r, nd))
